@@ -27,8 +27,11 @@ def fileOpenExisting (f : Option Bytes) : R (Nat × Bytes) :=
       if b.length < 4 + hl then .error (.err "UnexpectedEof")
       else .ok (4 + hl, (b.drop 4).take hl)
 
-/-- `n.to_string()` as bytes -/
-def natDigits (n : Nat) : Bytes := (toString n).toUTF8.toList
+/-- `n.to_string()` as bytes: decimal digits, most significant first -/
+def natDigits (n : Nat) : Bytes :=
+  if n < 10 then [(48 + n).toUInt8] else natDigits (n / 10) ++ [(48 + n % 10).toUInt8]
+termination_by n
+decreasing_by omega
 
 /-- `SeriesParams::to_text` (version is the constant 1) -/
 def toText (p : Nat) : Bytes :=
@@ -47,16 +50,23 @@ where
         | [] => none
         | _ :: t => go t (i+1) fuel
 
+/-- a leading '+' is accepted by Rust's integer parser -/
+def stripPlus : Bytes → Bytes
+  | 43 :: t => t
+  | b => b
+
+/-- one decimal digit more; `none` once a non-digit was seen -/
+def decStep (acc : Option Nat) (c : UInt8) : Option Nat :=
+  match acc with
+  | none => none
+  | some n => if 48 ≤ c.toNat ∧ c.toNat ≤ 57 then some (n * 10 + (c.toNat - 48)) else none
+
 /-- `str::parse::<usize/u16>()` for plain decimal digits; `limit` is the type's MAX -/
 def parseDec (limit : Nat) (b : Bytes) : Option Nat :=
-  let b := match b with
-    | 43 :: t => t          -- a leading '+' is accepted by Rust's integer parser
-    | _ => b
+  let b := stripPlus b
   if b.isEmpty then none
   else
-    match b.foldl (fun acc c => match acc with
-      | none => none
-      | some n => if 48 ≤ c.toNat ∧ c.toNat ≤ 57 then some (n * 10 + (c.toNat - 48)) else none) (some 0) with
+    match b.foldl decStep (some 0) with
     | some n => if n ≤ limit then some n else none
     | none => none
 
